@@ -469,6 +469,14 @@ def _operate_sync(
                         promise = Promise(promise)
                     yield (promise, candidate)
             else:
+                try:
+                    for v in obj.get("set", {}).values():
+                        if isinstance(v, Promise | _ObjectFinder):
+                            _resolve(promises, parent, v)
+                except _UnresolvablePromise as p:
+                    yield p.args[0], {"parent": parent, "sync": {attr: [obj]}}
+                    continue
+
                 newobj_props = (
                     find_args.attributes
                     | obj.pop("set", {})
